@@ -1,5 +1,7 @@
 #![allow(dead_code, unused_imports, unused_variables)]
+mod codec;
 mod crypto;
+mod kstrace;
 mod oracles;
 mod providers;
 mod replay;
@@ -7,6 +9,9 @@ mod treemath;
 mod world;
 
 use rand::{rngs::StdRng, Rng, SeedableRng};
+
+#[global_allocator]
+static ALLOC: codec::Counting = codec::Counting;
 use serde_json::{json, Value};
 use std::collections::{BTreeMap, BTreeSet};
 use std::io::BufRead;
@@ -152,6 +157,25 @@ fn main() {
             0
         }
         "replay" => cmd_replay(&args),
+        "codec" => {
+            let out = arg(&args, "--out").expect("--out");
+            std::panic::set_hook(Box::new(|_| {}));
+            match codec::dump(&out, arg_u64(&args, "--seed", 1), arg_u64(&args, "--mutants", 200) as usize, arg_u64(&args, "--alphabet-len", 3) as usize) {
+                Ok(st) => {
+                    println!("{}", json!({"prim_rows": st.prim, "enc_rows": st.enc, "inputs_probed": st.msgs, "authentic_messages": st.authentic,
+                        "accepted_mutants": st.accepted_mutants, "max_alloc_ratio": st.max_alloc_ratio, "violations": st.viols, "samples": st.samples, "kinds": st.kinds}));
+                    0
+                }
+                Err(e) => { eprintln!("codec: {e}"); 2 }
+            }
+        }
+        "kstrace" => {
+            let out = arg(&args, "--out").expect("--out");
+            match kstrace::dump(&out, arg_u64(&args, "--seed", 1), arg_u64(&args, "--scenarios", 4) as usize) {
+                Ok(v) => { println!("{}", v); 0 }
+                Err(e) => { eprintln!("kstrace: {e}"); 2 }
+            }
+        }
         _ => { eprintln!("unknown command {cmd}"); 2 }
     };
     std::process::exit(rc);
